@@ -141,7 +141,7 @@ def build(ctx):
         bd = dict(d); bd['SIZE_BOUND'] = str(BOUND)
         for fn, callee in (('SV_ctor_count', 'SV_resize'), ('SV_ctor_count_value', 'SV_resize_value')):
             units.append(Unit('SmallVector::' + fn[3:], 'cbmc', S, fn, replace=acc + [callee], **common))     # no element loop left: resize is used through its contract, count unbounded
-        copy_here = (ctx.tier == 'thorough') or (n, al) == (1, 8)     # the copy units take ~4 min each: one instantiation in the quick tier
+        copy_here = (n, al) == (1, 8)     # the copy units take ~4 min and several GB each: one instantiation (both tiers; with all thorough instantiations in parallel they ran out of memory)
         for fn in ('SV_growToHeap', 'SV_destroyAll', 'SV_ensureCapacity', 'SV_emplace_back', 'SV_pop_back', 'SV_clear', 'SV_reserve', 'SV_dtor', 'SV_resize', 'SV_resize_value', 'SV_erase', 'SV_move_ctor', 'SV_move_assign', 'SV_copy_ctor', 'SV_copy_assign'):
             if fn in ('SV_copy_ctor', 'SV_copy_assign') and not copy_here:
                 continue
